@@ -61,9 +61,7 @@ func zzInnerPlaintextDecodeRef() {
 	// reference: index of last non-zero byte
 	last := -1
 	for i := 0; i < ln; i++ {
-		if data[i] != 0 {
-			last = i
-		}
+		last = zzsymIteInt(data[i] != 0, i, last) // no fork per byte
 	}
 	if last < 0 {
 		zzsymAssert(err != nil, "ip_no_type_rejected")
@@ -185,7 +183,7 @@ func zzRecordLayerRoundTrip() {
 			Version:        protocol.Version{Major: 0xfe, Minor: zzsymIteU8(zzsymBool("v10"), 0xff, 0xfd)},
 			Epoch:          zzsymU16("epoch"),
 			SequenceNumber: zzsymU64("seq"),
-			ContentLen:     zzsymU16("stale_len"),             // overwritten by Marshal
+			ContentLen:     zzsymU16("stale_len"),                       // overwritten by Marshal
 			ContentType:    protocol.ContentType(zzsymU8("stale_type")), // overwritten by Marshal
 		},
 		Content: content,
